@@ -255,10 +255,17 @@ macro_rules! deserialize_impl_negative_integer {
                         Err(take_cf_content(E::error::<V>(
                             None,
                             ErrorKind::Unexpected {
-                                msg: format!(
-                                    "value: `{x}` is too small to be deserialized, minimum value authorized is `{}`",
-                                    <$t>::MIN
-                                ),
+                                msg: if x < 0 {
+                                    format!(
+                                        "value: `{x}` is too small to be deserialized, minimum value authorized is `{}`",
+                                        <$t>::MIN
+                                    )
+                                } else {
+                                    format!(
+                                        "value: `{x}` is too large to be deserialized, maximum value authorized is `{}`",
+                                        <$t>::MAX
+                                    )
+                                },
                             },
                             location,
                         )))
@@ -341,10 +348,17 @@ macro_rules! deserialize_impl_non_zero_negative_integer {
                         Err(take_cf_content(E::error::<V>(
                             None,
                             ErrorKind::Unexpected {
-                                msg: format!(
-                                    "value: `{x}` is too small to be deserialized, minimum value authorized is `{}`",
-                                    <$t>::MIN
-                                ),
+                                msg: if x < 0 {
+                                    format!(
+                                        "value: `{x}` is too small to be deserialized, minimum value authorized is `{}`",
+                                        <$t>::MIN
+                                    )
+                                } else {
+                                    format!(
+                                        "value: `{x}` is too large to be deserialized, maximum value authorized is `{}`",
+                                        <$t>::MAX
+                                    )
+                                },
                             },
                             location,
                         )))
